@@ -7,7 +7,14 @@
    commands) as it was; and H;R;K shows the same results and snapshots as H;K. *)
 From Coq Require Import List String NArith Bool.
 Import ListNotations.
-From TV Require Import Fp.Model Fp.ProofsC12 Fp.Refute Extracted.Facts Run.FpCases.
+From TV Require Import Fp.Model Fp.ProofsC12 Fp.Refute Fp.Current Extracted.Facts Run.FpCases.
+
+(* READING GUIDE
+   [LIVE]       about the tree as it is (variant [current] from Extracted.Facts); pure_variant current = true
+                is discharged by computation (Fp/Current.v: cur_pure), so a regression of the --list --json
+                or the --dry/mkdir repair breaks the obligation.  No carve-outs: C12 has no open finding.
+   [ANY]        for every variant, under the explicit side condition pure_cond / pure_variant.
+   [HISTORICAL] the two findings, repaired in 2f7088d and 904692b (premises false for [current] today).   *)
 
 (* --status implies dry (flags.go), every IsTaskUpToDate call site of RunTask/Status passes e.Dry,
    the checkers gate their writes on dry: the shapes the model hard-wires *)
@@ -15,7 +22,7 @@ Theorem C12_shape_obligation : fp_shape_ok = true.
 Proof. vm_compute. reflexivity. Qed.
 Print Assumptions C12_shape_obligation.
 
-(* one read-only invocation changes nothing - state, hence files, .task and trace (no command ran) -
+(* [ANY] one read-only invocation changes nothing - state, hence files, .task and trace (no command ran) -
    whenever pure_cond holds: always for --status/--list/--summary; for --dry when the task has no
    dir: or mkdir is guarded; for --list --json when its check is dry (or nothing is written by checks) *)
 Theorem C12_pure :
@@ -25,7 +32,7 @@ Theorem C12_pure :
 Proof. exact invoke_pure. Qed.
 Print Assumptions C12_pure.
 
-(* full statement for the repaired variant, over all histories *)
+(* [ANY variant with pure_variant] full statement over all histories *)
 Theorem C12_no_side_effects :
   forall matchb H Hx (v : variant) (p : project) (h : list event) (s : state),
     pure_variant v = true ->
@@ -46,8 +53,35 @@ Proof.
 Qed.
 Print Assumptions C12_commutes.
 
-(* the code as it is: what holds (every history whose read-only invocations satisfy pure_cond
-   in the current variant) ... *)
+(* ------------------------------------------------------------------------------------------- *)
+(* [LIVE] The tree as it is: no hypothesis at all.  Every read-only invocation (--dry, --status,
+   --list-all, --list-all --json, --summary) in every history leaves files, mtimes, directories, .task
+   state and the trace of executed commands untouched; H;R;K is H;K.                               *)
+Theorem C12_current_tree :
+  forall (matchb : string -> path -> bool) (H : string -> string) (Hx : fpr -> string)
+         (p : project) (h : list event) (s : state),
+    mon_C12 (snap_of s) (observe matchb H Hx current p s h) = true.
+Proof. exact c12_cur. Qed.
+Print Assumptions C12_current_tree.
+
+Theorem C12_current_tree_commutes :
+  forall (matchb : string -> path -> bool) (H : string -> string) (Hx : fpr -> string)
+         (p : project) (s : state) (Hh : list event) (t : N) (m : mode) (tid : nat) (o : outcome) (K : list event),
+    read_only m = true ->
+    run_hist matchb H Hx current p s (Hh ++ (t, Invoke m tid o) :: K) = run_hist matchb H Hx current p s (Hh ++ K) /\
+    mon_C12_commute (observe matchb H Hx current p s (Hh ++ (t, Invoke m tid o) :: K))
+                    (observe matchb H Hx current p s (Hh ++ K)) (List.length Hh) = true.
+Proof. exact c12_cur_commutes. Qed.
+Print Assumptions C12_current_tree_commutes.
+
+(* [LIVE] the fact it rests on *)
+Theorem C12_current_flags : pure_variant current = true.
+Proof. exact cur_pure. Qed.
+Print Assumptions C12_current_flags.
+
+(* ------------------------------------------------------------------------------------------- *)
+(* [ANY, superseded for today's tree by C12_current_tree] every history whose read-only invocations
+   satisfy pure_cond in the current variant (the premise is always true today) ... *)
 Theorem C12_partial :
   forall (p : project) (h : list event) (s : state),
     forallb (ev_pure current p) h = true ->
@@ -55,7 +89,7 @@ Theorem C12_partial :
 Proof. exact (mon_C12_holds gmatch idH hx1 current). Qed.
 Print Assumptions C12_partial.
 
-(* ... and what does not *)
+(* [HISTORICAL] ... and what did not hold before the fixes *)
 Theorem C12_listjson_refuted :        (* 7.6 *)
   v_listjson_dry current = false ->
   exists p h, mon_C12 (snap_of w_init) (observe gmatch idH hx1 current p w_init h) = false.
@@ -68,8 +102,17 @@ Theorem C12_dry_mkdir_refuted :       (* 7.18 *)
 Proof. exact (fun a => ex_intro _ _ (ex_intro _ _ (dry_mkdir_refuted current a))). Qed.
 Print Assumptions C12_dry_mkdir_refuted.
 
-(* non-vacuity: the repaired variant meets pure_variant; a history mixing queries and runs *)
+(* non-vacuity: the repaired variant meets pure_variant; a history mixing queries and runs; and the LIVE
+   instance on a concrete 8-step history with every read-only mode *)
 Example C12_example :
   pure_variant repaired = true /\
   forallb (ev_pure current [w_task Checksum]) [(10, Invoke Status 0 AllOk); (12, Invoke Dry 0 AllOk); (14, Invoke Run 0 AllOk)]%N = true.
 Proof. split; vm_compute; reflexivity. Qed.
+
+Example C12_current_example :
+  mon_C12 (snap_of w_init)
+    (observe gmatch idH hx1 current [w_task Checksum; w_dir] w_init
+       [(10, Invoke Run 0 (FailAt 1)); (12, Invoke Dry 1 AllOk); (14, Invoke ListJson 0 AllOk);
+        (16, Invoke Status 0 AllOk); (18, Invoke Run 0 (KilledAt 1)); (20, Invoke Summary 0 AllOk);
+        (22, Invoke ListM 0 AllOk); (24, Invoke Run 0 AllOk)]%N) = true.
+Proof. vm_compute. reflexivity. Qed.
